@@ -17,7 +17,8 @@ Inductive kind :=
   | KFsRetryPrefix                 (* FileSink, observation-only: success, the whole value is contiguous in the file written last, but a
                                       proper prefix of it was left at the end of the previous file by the failed first attempt *)
   | KFsTorn                        (* FileSink, observation-only: success although the value is in no file in one piece / other bytes were written *)
-  | KChanExactlyOne | KChanArm | KChanEarly | KChanLatency.     (* ChannelSink *)
+  | KChanExactlyOne | KChanArm | KChanEarly | KChanLatency      (* ChannelSink *)
+  | KChanHang.                     (* ChannelSink, concurrent callers: a Process call did not return within the watchdog *)
 
 Fixpoint eq_list {A} (eq : A -> A -> bool) (a c : list A) : bool :=
   match a, c with [], [] => true | x :: s, y :: t => eq x y && eq_list eq s t | _, _ => false end.
@@ -165,12 +166,32 @@ Fixpoint run_p (L : N) (fresh div : bool) (sz : N) (i : N) (steps : list (list N
   end.
 Definition check_p (c : pcase) : list (N * kind) := run_p (p_limit c) (p_fresh c) false 0%N 0%N (p_steps c).
 
+(* ---------- CG: n simultaneous ChannelSink.Process calls on a buffered channel with k free slots, nobody draining ----------
+   Every call must return within the bound: at most k callers hand their event over (success), every other caller gets the
+   timeout error once the timeout has elapsed; the channel then holds exactly the events of the callers that reported success. *)
+Record gobs := { go_arms : list N;        (* per caller: 0 sent, 2 timeout error, 3 anything else; callers that never returned are absent *)
+                 go_hung : N;             (* callers that had not returned when the watchdog fired *)
+                 go_delivered_ok : bool;  (* the channel holds exactly the very events of the callers that reported success (besides the prefill) *)
+                 go_early : bool;         (* some timeout error came back before the timeout had elapsed *)
+                 go_latency : Z }.        (* the slowest returned call, ms *)
+Record gcase := { g_free : N; g_n : N; g_timeout : Z; g_obs : gobs }.
+
+Definition countN (x : N) (l : list N) : N := N.of_nat (length (filter (N.eqb x) l)).
+Definition check_g (c : gcase) : list kind :=
+  let o := g_obs c in
+  (if N.eqb (go_hung o) 0 then [] else [KChanHang]) ++
+  (if N.leb (countN 0 (go_arms o)) (N.min (g_free c) (g_n c)) &&
+      N.eqb (countN 0 (go_arms o) + countN 2 (go_arms o) + go_hung o) (g_n c) then [] else [KChanArm]) ++
+  (if go_delivered_ok o then [] else [KChanExactlyOne]) ++
+  (if go_early o then [KChanEarly] else []) ++
+  (if Z.leb (go_latency o) (50 * (g_timeout c + 20)) then [] else [KChanLatency]).
+
 (* ---------- all together ---------- *)
-Inductive scase := CW (c : wcase) | CC (c : ccase) | CF (c : fcase) | CH (c : hcase) | CP (c : pcase).
+Inductive scase := CW (c : wcase) | CC (c : ccase) | CF (c : fcase) | CH (c : hcase) | CP (c : pcase) | CG (c : gcase).
 Definition check (c : scase) : N * list (N * kind) :=
   let z := map (fun k => (0%N, k)) in
   match c with CW x => (1%N, z (check_w x)) | CC x => (2%N, z (check_c x)) | CF x => (3%N, z (check_f x)) | CH x => (4%N, z (check_h x))
-             | CP x => (5%N, check_p x) end.
+             | CP x => (5%N, check_p x) | CG x => (6%N, z (check_g x)) end.
 
 (* (case, (call index, sink kind, kind)) *)
 Definition mismatches (cs : list (N * scase)) : list (N * (N * N * kind)) :=
